@@ -227,6 +227,12 @@ class Check:
             else:
                 extra = [a for a in ax if a not in ALLOWED_AXIOMS]
                 self.oblige("axioms " + t, not extra, "extra axioms: " + ", ".join(extra))
+        if self.tier == "thorough":
+            # independent re-check of the compiled property module by the toolchain's `leanchecker` (replays every
+            # declaration of the module through the kernel from the .olean, without the elaborator)
+            rc, out, dt = sh(["lake", "env", "leanchecker", mod], cwd=LEAN, timeout=3600)
+            self.oblige(f"leanchecker re-checks {mod}", rc == 0, out[-400:])
+            self.leanchecker_s = round(dt, 1)
 
     def step_cargo(self):
         # cargo's fingerprints are mtime based: when the `repo` symlink is pointed at another tree whose
